@@ -230,7 +230,7 @@ func runPool(units []Unit, procs int) []UnitResult {
 				cmd.Stderr = &stderr
 				// watchdog: a worker that hangs (e.g. a seeded change that blocks on a primitive the checker does not own)
 				// is killed and reported as an infrastructure failure of that unit
-				limit := 4*unitDeadline(u.Tier) + 2*time.Minute
+				limit := 4*unitDeadline(u.Tier) + 4*time.Minute
 				timer := time.AfterFunc(limit, func() {
 					if cmd.Process != nil {
 						cmd.Process.Kill()
